@@ -434,13 +434,34 @@ type callResult struct {
 	stack    string
 }
 
+// hookCtx is a caller's context whose Done method is a scheduling point: the first look the unifier
+// takes at it after the harness armed it stops there until the harness lets it go on. A caller may
+// hand in any context.Context; this one lets "cancellation at any point" include the instant between
+// two of the unifier's own steps.
+type hookCtx struct {
+	context.Context
+	armed   atomic.Bool
+	entered chan struct{}
+	resume  chan struct{}
+}
+
+func (c *hookCtx) Done() <-chan struct{} {
+	if c.armed.CompareAndSwap(true, false) {
+		close(c.entered)
+		<-c.resume
+	}
+	return c.Context.Done()
+}
+
 type sched struct {
-	h      *harness
-	c      cell
-	rep    int
-	nested bool // the members handed to the unifier under test are unifiers themselves
-	F, S   int
-	m      [2]*member
+	hookResumed bool
+	hook        *hookCtx // non-nil: the second answer and the cancellation are placed inside the unifier's next look at the context
+	h           *harness
+	c           cell
+	rep         int
+	nested      bool // the members handed to the unifier under test are unifiers themselves
+	F, S        int
+	m           [2]*member
 
 	parent       context.Context
 	cancelFn     context.CancelFunc
@@ -794,6 +815,31 @@ func (s *sched) execute() {
 		s.awaitMemberReturned(F)
 		s.openGate(S)
 		s.awaitMemberReturned(S)
+	case s.hook != nil:
+		// the first answer is released with the context armed: the unifier's next look at the caller's
+		// context (after it took that answer, if it takes another look at all) waits while the second
+		// member answers and returns and the caller cancels; then it goes on with both on offer
+		s.hook.armed.Store(true)
+		s.openGate(F)
+		h.waitEvent("hook-entered", s.hook.entered, s.checkReturn)
+		select {
+		case <-s.hook.entered:
+			run.Count("variant/hooked_context_look_reached", 1)
+			s.logf("the unifier looks at the caller's context; held there")
+			s.openGate(S)
+			s.awaitMemberReturned(S)
+			s.pause()
+			s.doCancel("while the unifier is between taking the first answer and waiting for the second, whose answer is already on offer")
+			close(s.hook.resume)
+			s.hookResumed = true
+		default:
+			s.hook.armed.Store(false)
+			s.doCancel("between the two answers")
+			s.openGate(S)
+		}
+		s.awaitReturn("return-after-cancel")
+		s.awaitMemberReturned(F)
+		s.awaitMemberReturned(S)
 	case s.loose && ctxwait:
 		// tie: the first answer, the cancellation and the second answer it provokes
 		s.openGate(F)
@@ -926,6 +972,11 @@ func (s *sched) execute() {
 		}
 	}
 
+	if s.hook != nil && !s.hookResumed {
+		s.hook.armed.Store(false)
+		close(s.hook.resume)
+		s.hookResumed = true
+	}
 	// End of the caller's interest: cancel (the idiomatic deferred cancel), release everything.
 	s.doCancel("cleanup after the call and its reader are finished")
 	s.openGate(F)
@@ -1068,6 +1119,11 @@ func main() {
 			s.flip = rng.IntN(2) == 0
 			s.gap = []int{0, 300, 3000, 30000}[rng.IntN(4)]
 			s.parent, s.cancelFn = context.WithCancel(context.Background())
+			if rep%4 == 2 && c.cancel == cBetween && c.style == stPrompt && !s.loose {
+				s.hook = &hookCtx{Context: s.parent, entered: make(chan struct{}), resume: make(chan struct{})}
+				s.parent = s.hook
+				run.Count("variant/hooked_context", 1)
+			}
 			desc := map[string]any{"cell": c.String(), "rep": rep}
 			run.Case("cell", desc, s.execute)
 			s.cancelFn()
@@ -1105,6 +1161,7 @@ func main() {
 		run.FloorCounter("entry/"+e+"/value", 1)
 		run.FloorCounter("entry/"+e+"/error", 1)
 	}
+	run.FloorCounter("variant/hooked_context_look_reached", 5)
 	run.FloorCounter("loser_reader/closed", 1)
 	run.FloorCounter("loser_reader/closed_after_error_return", 1)
 	run.FloorCounter("winner_ctx/live_on_return", 1)
